@@ -1,4 +1,4 @@
-//@@ unit c16_request properties=C16,C01,C07
+//@@ unit c16_request properties=C16,C01,C07 strictcallees
 #![allow(unused_imports, dead_code, unused_variables, unused_mut, unused_assignments)]
 use vstd::prelude::*;
 
@@ -35,8 +35,8 @@ pub struct ValueStr { pub filler: u8 }
 pub struct ToolCallCollector { pub filler: u8 }
 // the sink of the session stream: frames are handed over with the seq the caller stamps on them
 #[derive(Clone, Copy)]
-pub struct EventSink { pub filler: u8 }
-impl EventSink {
+pub struct EventSink<'a> { pub filler: &'a u8 }      // carries the lifetime of the real type, so that signatures of helpers the source gains resolve
+impl<'a> EventSink<'a> {
     // R11 hands the current value of the stream counter to every emission (`req.sink.emit(X)` ==> `req.sink.emit_at(*req.seq, X)`)
     #[verifier::external_body] pub fn emit_at(&self, cur: u64, e: Event)
         requires e.seq == cur,      // [request.every_frame_is_stamped_with_the_stream_counter]
@@ -91,14 +91,14 @@ impl Client { #[verifier::external_body] pub fn post(&self, url: &String) -> Req
 // the SSE pipe through its contract (proved in unit c15_pipe): it numbers what it emits from *seq and leaves *seq behind the last frame
 pub struct OpenResponsesSsePipe<'a> { pub seq: &'a mut u64 }
 impl<'a> OpenResponsesSsePipe<'a> {
-    #[verifier::external_body] pub fn new(session_id: &str, seq: &'a mut u64, sink: EventSink, collector: Option<&'a mut ToolCallCollector>, v: ValidationOptions) -> OpenResponsesSsePipe<'a> { unimplemented!() }
+    #[verifier::external_body] pub fn new(session_id: &str, seq: &'a mut u64, sink: EventSink<'a>, collector: Option<&'a mut ToolCallCollector>, v: ValidationOptions) -> OpenResponsesSsePipe<'a> { unimplemented!() }
     #[verifier::external_body] pub fn emit_transport_error(&mut self, e: String) { unimplemented!() }
     #[verifier::external_body] pub fn push_bytes(&mut self, buf: &mut Vec<u8>, b: &Bytes) -> bool { unimplemented!() }
     #[verifier::external_body] pub fn finish(&mut self) -> bool { unimplemented!() }
 }
 pub struct OpenResponsesStreamRequest<'a> {
     pub http: &'a Client, pub config: &'a OpenResponsesConfig, pub workspace_root: &'a Path, pub session_id: &'a str, pub payload: CreateResponsePayload,
-    pub request_index: u64, pub request_kind: &'a str, pub seq: &'a mut u64, pub sink: EventSink, pub collector: &'a mut ToolCallCollector,
+    pub request_index: u64, pub request_kind: &'a str, pub seq: &'a mut u64, pub sink: EventSink<'a>, pub collector: &'a mut ToolCallCollector,
 }
 pub assume_specification<T: Default, E>[ Result::<T, E>::unwrap_or_default ](r: Result<T, E>) -> (o: T)
     ensures r matches Ok(v) ==> o == v;
